@@ -208,15 +208,18 @@ func (llb *Buffer) ReadFrom(r io.Reader) (n int64, err error) {
 		}
 		n += int64(m)
 		b = b[:m]
-		if err == io.EOF {
+		if m > 0 {
+			// Keep the bytes that were read, even if they came along with io.EOF or an error.
+			llb.pushBack(&node{buf: b})
+		} else {
 			bsPool.Put(b)
+		}
+		if err == io.EOF {
 			return n, nil
 		}
 		if err != nil {
-			bsPool.Put(b)
 			return
 		}
-		llb.pushBack(&node{buf: b})
 	}
 }
 
